@@ -74,6 +74,12 @@ def new_parser(v: str, variant: str = 'default', default_collation: str | None =
     ns = dict(G.NAMESPACES)
     if default_collation is not None and v != '1.0':
         return cls(namespaces=ns, default_collation=default_collation)
+    p = _new_parser_variant(cls, v, ns, variant)
+    p._c03_variant = variant
+    return p
+
+
+def _new_parser_variant(cls, v: str, ns: dict, variant: str):
     if variant == 'non-strict':
         return cls(namespaces=ns, strict=False)
     if v == '1.0' or variant == 'default':
@@ -220,15 +226,17 @@ def consume(val):
     return val
 
 
-def explore_one(v: str, src: str, kind: str, dc: str | None = None) -> dict:
+def explore_one(v: str, src: str, kind: str, dc: str | None = None, pv: str = 'default') -> dict:
     """parse with a fresh parser; if parsed: evaluate(ctx), get_results(ctx), select(ctx), evaluate(None)"""
     res: dict = {'v': v, 's': src, 'c': kind}
     if dc is not None:
         res['dc'] = dc
+    if pv != 'default':
+        res['pv'] = pv
     holder = {}
 
     def do_parse():
-        holder['p'] = new_parser(v, default_collation=dc)
+        holder['p'] = new_parser(v, pv, default_collation=dc)
         return holder['p'].parse(src)
 
     out, site, tok = guarded(do_parse)
@@ -371,7 +379,7 @@ def worker_main() -> None:
     for line in sys.stdin:
         req = json.loads(line)
         try:
-            res = explore_one(req['v'], req['s'], req['c'], req.get('dc'))
+            res = explore_one(req['v'], req['s'], req['c'], req.get('dc'), req.get('pv', 'default'))
         except BaseException as e:   # noqa
             res = {'v': req['v'], 's': req['s'], 'c': req['c'],
                    'steps': [('harness', f'ERR:OTHER:{type(e).__name__}', 'harness:' + str(e)[:100])]}
@@ -903,7 +911,7 @@ def parse_observed(p, src):
 
     out, site, tok = in_process_guard(call)
     if out.startswith(('ERR:OTHER', 'ERR:NOCODE')) and isinstance(src, str) and not site.startswith('skipped'):
-        HISTORY_ESCAPES.append((getattr(p, 'version', '?'), src, out, site))
+        HISTORY_ESCAPES.append((getattr(p, 'version', '?'), src, out, site, getattr(p, '_c03_variant', 'default')))
     return outcome_text(out, tok, holder.get('msg')), tok
 
 
@@ -1072,11 +1080,12 @@ def correspond_histories(run: Run, n: int) -> None:
     esc = sorted(set(HISTORY_ESCAPES))
     del HISTORY_ESCAPES[:]
     if esc:
-        xs = run.driver('C03', [trigger_line(v, s, out, site) for v, s, out, site in esc])
-        for (v, s, out, site), ans in zip(esc, xs):
+        xs = run.driver('C03', [trigger_line(v, s, out, site) for v, s, out, site, _pv in esc])
+        for (v, s, out, site, pv), ans in zip(esc, xs):
             tag = accept_tag(ans)
             st.count('history:escape:' + out.split(':')[-1] + ('' if tag == '-' else f'[{tag}]'))
-            run.disagree(Disagreement({'kind': 'explore', 'v': v, 's': s, 'c': 'doc', 'step': 'parse'}, out, None,
+            run.disagree(Disagreement(dict({'kind': 'explore', 'v': v, 's': s, 'c': 'doc', 'step': 'parse'},
+                                           **({'parser_variant': pv} if pv != 'default' else {})), out, None,
                                       SPEC_OK, what='escape', site=site, tags=[] if tag == '-' else [tag]))
     for case, impl, ans in zip(cases, impls, answers):
         if not ans.startswith('model='):
@@ -1389,6 +1398,8 @@ def judge_explored(run: Run, results: list[dict], count: bool = True) -> list[Di
         case = {'kind': 'explore', 'v': r['v'], 's': r['s'], 'c': r['c']}
         if r.get('dc') is not None:
             case['default_collation'] = r['dc']
+        if r.get('pv'):
+            case['parser_variant'] = r['pv']
         if count:
             st.case(case, nontrivial=len(r['steps']) > 1)
             st.count('explore:gen:' + r.get('g', '?').split(':')[0])
@@ -1543,7 +1554,7 @@ def shrink(d: Disagreement) -> Disagreement:
         tk = new_parser(v).tokenizer
 
         def fails(s: str) -> bool:
-            r = explore_many([dict({'v': v, 's': s, 'c': kind}, **({'dc': case['default_collation']} if case.get('default_collation') is not None else {}))], nworkers=1)[0]
+            r = explore_many([dict({'v': v, 's': s, 'c': kind}, **({'dc': case['default_collation']} if case.get('default_collation') is not None else {}), **({'pv': case['parser_variant']} if case.get('parser_variant') else {}))], nworkers=1)[0]
             return any(out == d.impl and site == d.site for _n, out, site in r['steps'])
 
         toks = [m.group() for m in tk.finditer(src)]
@@ -1636,7 +1647,7 @@ def replay(run: Run) -> int:
     case = fi['case']
     print('replaying', json.dumps(case)[:400])
     if case.get('kind') == 'explore':
-        r = explore_many([dict({'v': case['v'], 's': case['s'], 'c': case['c']}, **({'dc': case['default_collation']} if case.get('default_collation') is not None else {}))], nworkers=1)[0]
+        r = explore_many([dict({'v': case['v'], 's': case['s'], 'c': case['c']}, **({'dc': case['default_collation']} if case.get('default_collation') is not None else {}), **({'pv': case['parser_variant']} if case.get('parser_variant') else {}))], nworkers=1)[0]
         print('steps:', r['steps'])
         bad = [s for s in r['steps'] if s[1].startswith(('ERR:OTHER', 'ERR:NOCODE'))]
         return 1 if bad else 0
